@@ -226,8 +226,9 @@ namespace
   // prepare step): any cache or shared scratch keyed with a tolerance makes the second answer of a pair wrong.
   std::string engine_string(World &w) { std::stringstream ss; ss << w.get_random_number_engine(); return ss.str(); }
   const int NPAIRS = 4;
-  const int NOPS = 17;   // 0..7 pair queries (in,out)x4, 8: 2-D batched, 9: grains entry point, 10: construct W2, 11: query W2, 12: destroy W2,
+  const int NOPS = 19;   // 0..7 pair queries (in,out)x4, 8: 2-D batched, 9: grains entry point, 10: construct W2, 11: query W2, 12: destroy W2,
                          // 15 / 16: hydrated oceanic plate ('tian water content' asks the world for the temperature) at ONE cartesian point with two different depth arguments
+                         // 17 / 18: W2 tag columns (441 depths) at two surface points 0.03 / 0.02 degrees apart over a mantle layer whose min depth is given at points
                          // 13: temperatures inside the second slab (mass conserving, spline of 5 points), 14: temperatures across the first slab (spline of 4 points)
   const char *PAIRN[NPAIRS] = {"continental-plate-west-edge", "mantle-layer-bottom", "slab-top-surface", "plume-rim"};
   std::string opname(int op)
@@ -235,7 +236,8 @@ namespace
     if (op < 8) return std::string("W1.properties3d[T,c0,tag,vel] at ") + PAIRN[op/2] + (op % 2 ? "/outer-neighbour" : "/inner-neighbour");
     const char *n[] = {"W1.properties2d[vel,g12,T]", "W1.grains3d(0,3)", "construct W2 (spherical file across the dateline)", "W2.properties3d[T,c1,tag] at an aliased longitude", "destroy W2",
                        "W1.temperature at 9 points in the second slab (mass conserving model with a 5-point spline)", "W1.temperature at 25 points across the first slab (mass conserving model with a 4-point spline)",
-                       "W1.properties3d[c1,c0,T] in the hydrated oceanic plate, depth argument 30 km", "W1.properties3d[c1,c0,T] at the same cartesian point, depth argument 55 km"
+                       "W1.properties3d[c1,c0,T] in the hydrated oceanic plate, depth argument 30 km", "W1.properties3d[c1,c0,T] at the same cartesian point, depth argument 55 km",
+                       "W2.tag down a column through a layer top given at points", "W2.tag down the column 0.03 degrees further east and 0.02 degrees further north"
                       };
     return n[op-8];
   }
@@ -250,7 +252,7 @@ namespace
   };
   // W1: both slabs use the mass conserving model with splines of different sizes (a model that keeps a workspace between calls must not let one slab's samples leak into the other's)
   std::string text_w1() { worlds::Opt o = opt_for(0); o.slab_model = 2; o.second_slab = true; o.water = true; return worlds::rich(o); }
-  std::string text_w2() { worlds::Opt o; o.spherical = true; o.variant = 1; o.shift = 178; return worlds::rich(o); }
+  std::string text_w2() { worlds::Opt o; o.spherical = true; o.variant = 1; o.shift = 178; o.depth_points = true; return worlds::rich(o); }
   P3 point_w2() { return query_point(true, 181.5, 0.5, 8e4); }
 
   struct Loaded2D { std::array<double,2> p2; double d2; P3 pg; double dg; };
@@ -280,6 +282,15 @@ namespace
         std::vector<double> t;
         for (int k = 0; k < 16; ++k) { const double d = 4e4 + 1.5e4*k; t.push_back(w1.temperature(query_point(false, 2.0e5, -1.2e5, d), d)); }
         for (int k = 0; k < 9; ++k) { const double d = 1.6e5 + 0.5e4*k; t.push_back(w1.temperature(query_point(false, 2.0e5, -1.2e5, d), d)); }   // the lower edge of the thermal anomaly
+        return t;
+      }
+    if (op == 17 || op == 18)
+      {
+        // the top of the mantle layer slopes by several hundred metres between the two columns: a lookup remembered with a tolerance in natural coordinates (radians here) moves the tag change
+        std::vector<double> t;
+        // (on the oceanic side, where the mantle layer's top is the only depth surface given at points that is consulted)
+        const double lon = 182.7 + (op == 18 ? 0.03 : 0.0), lat = 1.0 + (op == 18 ? 0.02 : 0.0);
+        for (int k = 0; k <= 440; ++k) { const double d = 0.6e5 + 250.0*k; t.push_back(w2->properties(query_point(true, lon, lat, d), d, {{{4,0,0}}})[0]); }
         return t;
       }
     return w2->properties(point_w2(), 8e4, W2_REQ);
@@ -383,7 +394,7 @@ namespace
     const Ref &R = read_ref(true);
     const Loaded2D L2 = fixed_points();
     std::unique_ptr<World> w2;
-    if (op == 11) w2 = make_world(text_w2(), 1, "r2");
+    if (op == 11 || op == 17 || op == 18) w2 = make_world(text_w2(), 1, "r2");
     auto w1 = make_world(text_w1(), 1, "r1");
     const std::vector<double> v = do_op(*w1, w2.get(), op, R, L2);
     std::string sline;
@@ -400,7 +411,7 @@ namespace
     bool alive = false;
     for (int op : ops)
       {
-        if ((op == 10 && alive) || ((op == 11 || op == 12) && !alive)) { ctx.count(c_dis); return; }
+        if ((op == 10 && alive) || ((op == 11 || op == 12 || op == 17 || op == 18) && !alive)) { ctx.count(c_dis); return; }
         if (op == 10) alive = true;
         if (op == 12) alive = false;
       }
@@ -413,6 +424,7 @@ namespace
       ctx.violation(std::string("C01/history/bisection-history-changed-answers/") + PAIRN[idx/2],
                     JObj().str("what", "two adjacent doubles found by bisecting on the tag (in one process) have identical answers in pristine processes: the answers seen during the bisection depended on the preceding queries")
                     .raw("inner", jarr(R.pin[idx/2])).raw("outer", jarr(R.pout[idx/2])).raw("pristine_answer", jarr(R.fresh[idx])).str("world1", t1).done());
+    if (len == 1 && idx == 17 && biteq(R.fresh[17], R.fresh[18])) { fprintf(stderr, "C01: the two neighbouring tag columns of W2 have identical pristine answers, the pair says nothing\n"); _exit(3); }
     std::unique_ptr<World> w1 = make_world(t1, 1, "h"), w2;
     auto hist = [&]()
     {
@@ -463,8 +475,8 @@ int main(int argc, char **argv)
   spec.property = "C01";
   spec.level = "model_checking";
   spec.rule = "batching suites: every request list of length <= L over an 8-atom alphabet x 6 rich worlds x all probe points (lattice, depths just above/at/below the surface, lines through the fault and the slab), each block compared bit-for-bit with the stand-alone "
-              "query through the same interface (non-trivial: list length >= 2 and at least one point inside a feature); history suites: every operation sequence of length <= D over 17 "
-              "operations (queries at 4 pairs of adjacent doubles straddling feature boundaries, 2-D batched query, grains entry point, construct/query/destroy a second, spherical world, temperature profiles through two slabs whose thermal models use splines of different sizes, a hydrated plate at one cartesian point with two depth arguments) "
+              "query through the same interface (non-trivial: list length >= 2 and at least one point inside a feature); history suites: every operation sequence of length <= D over 19 "
+              "operations (queries at 4 pairs of adjacent doubles straddling feature boundaries, 2-D batched query, grains entry point, construct/query/destroy a second, spherical world, tag columns of that world at two points 0.03 degrees apart through a sloping layer top given at points, temperature profiles through two slabs whose thermal models use splines of different sizes, a hydrated plate at one cartesian point with two depth arguments) "
               "each replayed in a freshly exec'd process, canonical state = bit pattern of 14 probe answers + serialised RNG engine + W2 alive (non-trivial: every enabled sequence; distinct by construction)";
   spec.assumptions = {"request alphabet: temperature, composition 0/1, grains (0,1) (0,3) (1,2), tag, velocity", "worlds without random models (random models are C15)",
                       "every explored trace is an implementation trace (no separate model)"
@@ -498,8 +510,8 @@ int main(int argc, char **argv)
         h.n = 1; for (unsigned k = 0; k < len; ++k) h.n *= NOPS;
         h.run = [len](uint64_t i, Ctx &c) { run_history(len, i, c); };
         h.fresh_process = true;
-        h.bound = "all operation sequences of length " + std::to_string(len) + " over 17 operations (4 boundary-straddling pairs of adjacent doubles, 2-D batched query, grains entry point, "
-                  "construct/query/destroy a spherical world across the dateline, temperature profiles through two slabs with splines of different sizes); each sequence in a freshly exec'd process; disabled sequences skipped and counted";
+        h.bound = "all operation sequences of length " + std::to_string(len) + " over 19 operations (4 boundary-straddling pairs of adjacent doubles, 2-D batched query, grains entry point, "
+                  "construct/query/destroy a spherical world across the dateline and two neighbouring tag columns in it, temperature profiles through two slabs with splines of different sizes); each sequence in a freshly exec'd process; disabled sequences skipped and counted";
         s.push_back(h);
       }
     return s;
